@@ -15,8 +15,8 @@ from .. import names
 
 RULE = ("each clean (schema, document) is compiled under a baseline option set and 3 variants drawn from normalization {none, rust} x "
         "extra response / variables derives x module visibility {pub, pub(crate), inherited} x custom-scalars module {super, "
-        "dedicated module} x extern-enum subsets (consumer enum with the reference wire behaviour) x serde path {::serde, "
-        "graphql_client::_private::serde}; every vector (C01 payloads, C03 corruptions, valid variable assignments) must yield "
+        "dedicated module} x extern-enum subsets (consumer enum with the reference wire behaviour) x serde path {::serde, serde, "
+        "graphql_client::_private::serde, two re-exports inside the consumer crate}; every vector (C01 payloads, C03 corruptions, valid variable assignments) must yield "
         "the same accept/reject decision, the same re-serialised payload and the same serialised body under all of them. "
         "Non-trivial = group whose variants differ in normalization, extern enums or scalar module; distinct by (schema, document, variant options)")
 
@@ -48,7 +48,8 @@ def variant_options(rng, schema, cid, force_dim=None):
         o["extern_enums"] = sorted(rng.sample(enums, rng.randint(1, len(enums))))
         dims.append("extern_enums")
     if take("serde_path", 0.4):
-        o["serde_path"] = "graphql_client::_private::serde"
+        # the path is the consumer's choice: the crate itself, graphql_client's re-export, or a re-export of their own
+        o["serde_path"] = rng.choice(["graphql_client::_private::serde", "serde", "crate::%s::reexports::serde" % cid, "crate::%s::deps::serde_crate" % cid])
         dims.append("serde_path")
     return o, dims
 
